@@ -186,4 +186,8 @@ def impl_dump_for_tree(case):
 
 def impl_relative_to(case):
     from productmd.extra_files import _relative_to
-    return _relative_to(case["path"], case["root"])
+    root = case["root"]
+    if root.startswith("<cwd>"):
+        import os
+        root = os.getcwd() + root[len("<cwd>"):]
+    return _relative_to(case["path"], root)
